@@ -300,6 +300,26 @@ fn run_encoder(
                 .collect();
             rq.routing_information_update(dst, &entries, buf)
         }
+        ("reqRoutingNew", [es]) => {
+            // the same call with the entries built by the public constructor instead of from raw bytes
+            use libmctp::control_packet::RoutingInformationUpdateEntryType as E;
+            let raw = parse_bytes(es)?;
+            if raw.len() % 4 != 0 {
+                return None;
+            }
+            let mut entries = Vec::new();
+            for c in raw.chunks(4) {
+                let t = match c[0] {
+                    0 => E::SingleEndpointNotBridge,
+                    1 => E::EIDRangeIncludeBridge,
+                    2 => E::SingleEndpointBridge,
+                    3 => E::EIDRangeNotIncludeBridge,
+                    _ => return None,
+                };
+                entries.push(SMBusRoutingInformationUpdateEntry::new(t, c[1], c[2], c[3]));
+            }
+            rq.routing_information_update(dst, &entries, buf)
+        }
         ("reqGetRouting", [h]) => rq.get_routing_table_entries(dst, parse_byte(h)?, buf),
         ("reqPrepare", []) => rq.prepare_for_endpoint_discovery(dst, buf),
         ("reqDiscovery", []) => rq.endpoint_discovery(dst, buf),
@@ -706,6 +726,112 @@ impl Exec {
                     Ok(Some(Err(()))) => format!("err {}", hex(&b)),
                     Err(_) => panic_text(),
                 })
+            }
+            // the additional header passed as a view into the data slice itself (header = &data[..k])
+            ["encalias", id, dst, name, k, data, bufs] => {
+                let c = self.ctxs.get(*id)?;
+                let dst = parse_byte(dst)?;
+                let k: usize = k.parse().ok()?;
+                let data = parse_bytes(data)?;
+                if k > data.len() {
+                    return None;
+                }
+                let mut b = parse_bytes(bufs)?;
+                let r = catch_unwind(AssertUnwindSafe(|| {
+                    let ho: Option<&[u8]> = Some(&data[..k]);
+                    let rq = c.get_request();
+                    match *name {
+                        "genControl" => Some(rq.generate_control_packet_bytes(dst, &ho, &data, &mut b)),
+                        "genPci" => Some(rq.generate_pci_msg_packet_bytes(dst, &ho, &data, &mut b)),
+                        "genIana" => Some(rq.generate_iana_msg_packet_bytes(dst, &ho, &data, &mut b)),
+                        "genSpdm" => Some(rq.generate_spdm_msg_packet_bytes(dst, MessageType::SpdmOverMctp, &ho, &data, &mut b)),
+                        _ => None,
+                    }
+                }));
+                Some(match r {
+                    Ok(None) => return None,
+                    Ok(Some(Ok(n))) => format!("ok {} {}", n, hex(&b)),
+                    Ok(Some(Err(()))) => format!("err {}", hex(&b)),
+                    Err(_) => panic_text(),
+                })
+            }
+            // exhaustive in-process sweeps of small pure functions against their closed forms
+            // (the closed forms are what lean/Mctp/Props/Ctors.lean and C18.lean prove of the model)
+            ["sweep", "routing-new"] => {
+                use libmctp::control_packet::RoutingInformationUpdateEntryType as E;
+                let mut bad = 0u64;
+                let mut first = String::from("-");
+                let mut n = 0u64;
+                for t in 0..4u8 {
+                    for sz in 0..=255u8 {
+                        for f in 0..=255u8 {
+                            for ph in 0..=255u8 {
+                                let ty = match t {
+                                    0 => E::SingleEndpointNotBridge,
+                                    1 => E::EIDRangeIncludeBridge,
+                                    2 => E::SingleEndpointBridge,
+                                    _ => E::EIDRangeNotIncludeBridge,
+                                };
+                                let got = SMBusRoutingInformationUpdateEntry::new(ty, sz, f, ph).0;
+                                n += 1;
+                                if got != [t, sz, f, ph] {
+                                    bad += 1;
+                                    if first == "-" {
+                                        first = format!("{:02x}{:02x}{:02x}{:02x}", t, sz, f, ph);
+                                    }
+                                }
+                            }
+                        }
+                    }
+                }
+                Some(format!("swept {} {} {}", n, bad, first))
+            }
+            ["sweep", "transport-from-buf", b0lo, b0hi] => {
+                // all values of bytes 1..3 for first bytes b0lo..=b0hi, version 1
+                let lo = parse_byte(b0lo)?;
+                let hi = parse_byte(b0hi)?;
+                let mut bad = 0u64;
+                let mut first = String::from("-");
+                let mut n = 0u64;
+                for b0 in lo..=hi {
+                    for b1 in 0..=255u8 {
+                        for b2 in 0..=255u8 {
+                            for b3 in 0..=255u8 {
+                                let got = MCTPTransportHeader::new_from_buf([b0, b1, b2, b3], 1).is_ok();
+                                n += 1;
+                                if got != (b0 == 0x01) {
+                                    bad += 1;
+                                    if first == "-" {
+                                        first = format!("{:02x}{:02x}{:02x}{:02x}", b0, b1, b2, b3);
+                                    }
+                                }
+                            }
+                        }
+                    }
+                }
+                Some(format!("swept {} {} {}", n, bad, first))
+            }
+            ["sweep", "ctrl-new"] => {
+                let mut bad = 0u64;
+                let mut first = String::from("-");
+                let mut n = 0u64;
+                for rq in 0..2u8 {
+                    for d in 0..2u8 {
+                        for iid in 0..=255u8 {
+                            for cmd in (0..=0x14u8).chain(core::iter::once(0xFFu8)) {
+                                let got = MCTPControlMessageHeader::new(rq == 1, d == 1, iid, CommandCode::from(cmd)).0;
+                                n += 1;
+                                if got != [(rq << 7) | (d << 6) | (iid & 0x1F), cmd] {
+                                    bad += 1;
+                                    if first == "-" {
+                                        first = format!("{}{}{:02x}{:02x}", rq, d, iid, cmd);
+                                    }
+                                }
+                            }
+                        }
+                    }
+                }
+                Some(format!("swept {} {} {}", n, bad, first))
             }
             ["view", "get", f, raw] => {
                 let raw = parse_bytes(raw)?;
